@@ -749,3 +749,41 @@ def check_flow_reference(prop, tier, repo, verif):
     res['wall_s'] = round(time.time() - t0, 1)
     res['checker_cmd'] = 'RANDOM_COUNT=%d tools/flowprobe (built against the current tree): %s programs, %s executions' % (nrand, m.group(1), m.group(2))
     return res
+
+
+def check_decoder_model(prop, tier, repo, verif):
+    t0 = time.time()
+    res = {'unit': 'bounded:decoder_model', 'engine': 'bounded run of the real processor against an independent batching / decoding model written from programs.md and decoder/main.md (tools/decmodel, release build with debug assertions)', 'status': 'ok',
+           'failures': [], 'undecided': [], 'bounded': True,
+           'bound': '20299 programs built as MAST directly and from MASM: spans of length 1..11 with every push pattern, 12..80 with structured and random pushes, spans around 1..4 full batches, all join / split / loop / call shapes to depth 3 with loops of 0 / 1 / n iterations, syscall / dyn / dyncall to depth 4-5; compared: op bits, group-count column, hasher state on SPAN / RESPAN / block-start / END / final rows, the op per clock from VmStateIterator; nesting and zero group count on every END row'}
+    binp, err = build_tool(repo, verif, 'decmodel', release=True)
+    if binp is None:
+        res['status'] = 'undecided'
+        res['undecided'].append('decmodel does not build against the current tree: ' + err)
+        return res
+    p = subprocess.run([binp], stdout=subprocess.PIPE, stderr=subprocess.PIPE, text=True)
+    m = re.search(r'SUMMARY programs=(\d+) deviating=(\d+)', p.stdout)
+    if not m:
+        res['status'] = 'undecided'
+        res['undecided'].append('decmodel gave no summary (panic?): ' + (p.stdout + p.stderr)[-500:])
+        return res
+    seen = set()
+    for ln in p.stdout.split('\n'):
+        mm = re.match(r'FAILCASE (.*?) :: (.*?) :: (.*?) :: (.*)', ln)
+        if not mm:
+            continue
+        kind, prog, conds, detail = mm.groups()
+        slug = re.sub(r'[^A-Za-z0-9]+', '-', kind).strip('-')[:50] or 'deviation'
+        if slug in seen:
+            continue
+        seen.add(slug)
+        res['failures'].append({'obligation': '%s/bounded/decoder_model#%s' % (prop, slug), 'message': 'decoder trace deviates from the model: %s (%s programs deviate in total)' % (kind, m.group(2)),
+                                'rendered': ln[:1800], 'origins': ['processor/src/lib.rs', 'processor/src/decoder/mod.rs', 'processor/src/decoder/trace.rs', 'core/src/program/blocks/span_block.rs'],
+                                'failing_input': {'program': prog[:900], 'conditions': conds[:200], 'detail': detail[:500], 'cmd': '.cache/target/release/decmodel'}})
+    if int(m.group(2)) and not res['failures']:
+        res['failures'].append({'obligation': '%s/bounded/decoder_model#deviation' % prop, 'message': '%s programs deviate' % m.group(2), 'rendered': p.stdout[-800:], 'origins': []})
+    if res['failures']:
+        res['status'] = 'fail'
+    res['wall_s'] = round(time.time() - t0, 1)
+    res['checker_cmd'] = 'tools/decmodel (built against the current tree): %s programs' % m.group(1)
+    return res
